@@ -39,7 +39,7 @@ def rand_controller(rng, idx):
                             "params": [{"kind": "plain", "type": "String", "name": "s"}] * rng.choice([0, 1])})
         else:
             members.append({"t": "field", "name": "svc%d" % j})
-    return {"pkg": rng.choice(["com.app.web", "com.app.api"]), "name": "C%dController" % idx, "kind": kind, "ctrl": ctrl,
+    return {"pkg": rng.choice(["com.app.web", "com.app.api"]), "name": rng.choice(["C%dController", "C%dController", "Testimonial%dController", "Contest%dCaseController"]) % idx, "kind": kind, "ctrl": ctrl,
             "ctrlFirst": rng.random() < 0.75, "cm": cm, "members": members, "otherAnno": rng.random() < 0.2}
 
 
